@@ -141,6 +141,9 @@ DIRECTED = [
     b"/%2e%2e%5csecret.txt", b"/..%255csecret.txt", b"/..%255c", b"/%252e%252e%255csecret.txt", b"/%252e/", b"/%252e%252f", b"/a%252f", b"/a%2f", b"/a%2e",
     b"/secret%2e", b"/secret%252e", b"/a/%2e", b"/%2e%2e", b"/..", b"/../", b"/...", b"/.../", b"/..;/secret.txt", b"/;/../secret.txt",
     b"/%2e%2e;/secret.txt", b"/a/..;/..;/secret.txt", b"/.%00./secret.txt", b"/%u002e%u002e/secret.txt", b"/%%32e%%32e/secret.txt",
+    # encoded spellings of the fixture's path-bound handlers (/h, /h/index.html, /a/a.html, /aa.html): the Prepare table is keyed by the RAW path
+    b"/h", b"/%68", b"/h/", b"/%68/", b"/h%2f", b"/h/index.html", b"/h/index%2ehtml", b"/a/a.html", b"/a/a%2ehtml", b"/a/a.", b"/a/%61.", b"/%61a.",
+    b"/aa.", b"/aa.html", b"/%61%61.html", b"/h?x", b"/%68?x", b"/H",
 ]
 
 
